@@ -1,0 +1,113 @@
+//go:build verif
+// +build verif
+
+// Verification-only construction of a partial Downloader around the real body-fetching loop (fetchBodies -> fetchParts)
+// for property C18 of /verif: the real queue, the real peer set and peer connections, scripted remote peers.  Nothing in
+// here is compiled into a normal build.
+
+package downloader
+
+import (
+	"sync"
+	"sync/atomic"
+	"time"
+
+	"github.com/youchainhq/go-youchain/core/types"
+)
+
+// VerifLoop is a Downloader with just the parts fetchBodies touches.
+type VerifLoop struct {
+	VerifQueue
+	d       *Downloader
+	mu      sync.Mutex
+	dropped []string
+}
+
+// NewVerifLoop builds the partial Downloader.  window / maxProc scale the result window and the batch limit of Results
+// (package variables, see NewVerifQueue); rtt is the round trip estimate (the request TTL is three times that).
+func NewVerifLoop(origin uint64, window, maxProc int, rtt time.Duration) *VerifLoop {
+	vq := NewVerifQueue(origin, window, maxProc)
+	l := &VerifLoop{VerifQueue: *vq}
+	d := &Downloader{
+		mode:          FullSync,
+		peers:         newPeerSet(),
+		queue:         vq.q,
+		bodyCh:        make(chan dataPack, 1),
+		bodyWakeCh:    make(chan bool, 1),
+		cancelCh:      make(chan struct{}),
+		quitCh:        make(chan struct{}),
+		rttEstimate:   uint64(rtt),
+		rttConfidence: 1000000,
+	}
+	d.dropPeer = func(id string) {
+		l.mu.Lock()
+		l.dropped = append(l.dropped, id)
+		l.mu.Unlock()
+		d.UnregisterPeer(id) // what ProtocolManager.removePeer does for the downloader
+	}
+	l.d = d
+	return l
+}
+
+// RegisterPeer is Downloader.RegisterPeer; the RTT estimate is pinned again afterwards (registration lowers the confidence).
+func (l *VerifLoop) RegisterPeer(id string, p Peer, rtt time.Duration) error {
+	err := l.d.RegisterPeer(id, p)
+	atomic.StoreUint64(&l.d.rttEstimate, uint64(rtt))
+	atomic.StoreUint64(&l.d.rttConfidence, 1000000)
+	return err
+}
+
+// FetchBodies runs the real loop until it returns; the error is classified.
+func (l *VerifLoop) FetchBodies() string {
+	switch err := l.d.fetchBodies(); err {
+	case nil:
+		return "nil"
+	case errPeersUnavailable:
+		return "errPeersUnavailable"
+	case errNoPeers:
+		return "errNoPeers"
+	case errTimeout:
+		return "errTimeout"
+	case errCanceled:
+		return "errCanceled"
+	case errInvalidChain:
+		return "errInvalidChain"
+	default:
+		return "other:" + err.Error()
+	}
+}
+
+// Wake is what processHeaders does after scheduling (cont = true) and when the header stream ends (cont = false).
+func (l *VerifLoop) Wake(cont bool) {
+	select {
+	case l.d.bodyWakeCh <- cont:
+	case <-l.d.cancelCh:
+	}
+}
+
+// DeliverBodies is Downloader.DeliverBodies (the protocol handler's entry point).
+func (l *VerifLoop) DeliverBodies(id string, txs [][]*types.Transaction) error {
+	return l.d.DeliverBodies(id, txs)
+}
+
+// ResultsBlocking is queue.Results(true), what processFullSyncContent consumes.
+func (l *VerifLoop) ResultsBlocking() []VerifResult {
+	var out []VerifResult
+	for _, r := range l.q.Results(true) {
+		out = append(out, VerifResult{Header: r.Header, Transactions: r.Transactions, Pending: r.Pending})
+	}
+	return out
+}
+
+// Close ends the sync the way spawnSync does: the queue is closed, pending operations are cancelled.
+func (l *VerifLoop) Close() {
+	l.q.Close()
+	l.d.cancel()
+}
+
+// Dropped lists the peers dropPeer was called for.
+func (l *VerifLoop) Dropped() []string {
+	l.mu.Lock()
+	defer l.mu.Unlock()
+	return append([]string{}, l.dropped...)
+}
